@@ -378,6 +378,28 @@ pub(crate) fn add_int_multinom<W, R, T>(
     )
 }
 
+/// C(n, k), or None if it does not fit a usize (intermediates in 128 bits)
+fn checked_binomial(n: usize, k: usize) -> Option<usize> {
+    if k > n {
+        return Some(0);
+    }
+    let k = k.min(n - k);
+    let mut r: u128 = 1;
+    for j in 0..k {
+        // r = C(n, j) <= C(n, k) and n - j < 2^64: the product fits 128 bits once r fits 64
+        r = r * (n - j) as u128 / (j as u128 + 1);
+        if r > usize::MAX as u128 {
+            return None;
+        }
+    }
+    Some(r as usize)
+}
+
+/// a * b / c without overflowing the product
+fn mul_div(a: usize, b: usize, c: usize) -> usize {
+    (a as u128 * b as u128 / c as u128) as usize
+}
+
 pub(crate) fn add_int_permutation<W, R, T>(
     scope: &mut RootCompilationScope<W, R, T>,
 ) -> Result<(), CompilationError> {
@@ -396,8 +418,9 @@ pub(crate) fn add_int_permutation<W, R, T>(
             if k > n{
                 return xerr(ManagedXError::new("k cannot be greater than n", rt)?);
             }
-            let total = (n-k+1..=n).product();
-            if i >= total{
+            // the number of permutations may exceed usize; every index that fits is then valid
+            let total = (n-k+1..=n).try_fold(1usize, |acc, x| acc.checked_mul(x));
+            if total.map_or(false, |total| i >= total){
                 return xerr(ManagedXError::new("i too large", rt)?);
             }
             rt.can_allocate(k)?;
@@ -438,11 +461,18 @@ pub(crate) fn add_int_combination<W, R, T>(
             if k > n{
                 return xerr(ManagedXError::new("k cannot be greater than n", rt)?);
             }
-            let mut s_cutoff = binomial(n-1,k-1);
-            let total = s_cutoff*n/k;
+            if k == 0 {
+                // there is exactly one combination of nothing: the empty one
+                if i > 0 {
+                    return xerr(ManagedXError::new("i too large", rt)?);
+                }
+                return Ok(manage_native!(XSequence::<W, R, T>::Empty, rt));
+            }
+            let Some(total) = checked_binomial(n, k) else { return xerr(ManagedXError::new("too many combinations", rt)?); };
             if i >= total{
                 return xerr(ManagedXError::new("i too large", rt)?);
             }
+            let mut s_cutoff = binomial(n-1,k-1);
             let mut s = 0;
             rt.can_allocate(k)?;
             let mut ret = Vec::with_capacity(k);
@@ -450,13 +480,13 @@ pub(crate) fn add_int_combination<W, R, T>(
                 if i < s_cutoff{
                     ret.push(s);
                     if k > 1{
-                        s_cutoff = s_cutoff*(k-1)/(n-s-1);
+                        s_cutoff = mul_div(s_cutoff, k-1, n-s-1);
                     }
                     k -= 1;
                     s+=1;
                 } else {
                     i -= s_cutoff;
-                    s_cutoff = s_cutoff*(n-s-k)/(n-s-1);
+                    s_cutoff = mul_div(s_cutoff, n-s-k, n-s-1);
                     s+=1;
                 }
             }
@@ -481,14 +511,23 @@ pub(crate) fn add_int_combination_with_replacement<W, R, T>(
             let Some(mut i) = to_primitive!(a1, Int).to_usize() else { return xerr(ManagedXError::new("k out of bounds", rt)?); };
             let Some(mut k) = to_primitive!(a2, Int).to_usize() else { return xerr(ManagedXError::new("i out of bounds", rt)?); };
 
-            if k > n{
-                return xerr(ManagedXError::new("k cannot be greater than n", rt)?);
+            // with replacement k may exceed n
+            if k == 0 {
+                // there is exactly one combination of nothing: the empty one
+                if i > 0 {
+                    return xerr(ManagedXError::new("i too large", rt)?);
+                }
+                return Ok(manage_native!(XSequence::<W, R, T>::Empty, rt));
             }
-            let mut s_cutoff = binomial(n+k-2,k-1);
-            let total = (s_cutoff*(n+k-1))/k;
+            if n == 0 {
+                // nothing to choose from
+                return xerr(ManagedXError::new("i too large", rt)?);
+            }
+            let Some(total) = n.checked_add(k-1).and_then(|m| checked_binomial(m, k)) else { return xerr(ManagedXError::new("too many combinations", rt)?); };
             if i >= total{
                 return xerr(ManagedXError::new("i too large", rt)?);
             }
+            let mut s_cutoff = binomial(n+k-2,k-1);
             let mut s = 0;
             rt.can_allocate(k)?;
             let mut ret = Vec::with_capacity(k);
@@ -496,12 +535,12 @@ pub(crate) fn add_int_combination_with_replacement<W, R, T>(
                 if i < s_cutoff{
                     ret.push(s);
                     if k > 1{
-                        s_cutoff = (s_cutoff*(k-1))/(k+n-s-2);
+                        s_cutoff = mul_div(s_cutoff, k-1, k+n-s-2);
                     }
                     k -= 1;
                 } else {
                     i -= s_cutoff;
-                    s_cutoff = (s_cutoff*(n-s-1))/(k+n-s-2);
+                    s_cutoff = mul_div(s_cutoff, n-s-1, k+n-s-2);
                     s+=1;
                 }
             }
